@@ -5,6 +5,7 @@ merged replace step), RP (paired updates), RQ (raise discipline)."""
 from __future__ import annotations
 
 import ast
+import re
 
 from ..core import AnalysisError, Func, Program, Report, src, walk_own
 from ..gates import view
@@ -587,11 +588,22 @@ def rule_rx_added_exit(prog: Program, report: Report, pid: str) -> None:
     fn2 = json.load(open(os.path.join(here, "fn2props.json")))
     # every function of a file the property's anchors name, plus the functions the tables anchor
     files: set[str] = set()
+    words: set[str] = set()
     for line in open(os.path.join(os.path.dirname(os.path.dirname(here)), "properties.jsonl"), encoding="utf-8"):
         pr = json.loads(line)
         if pr["id"] == pid:
-            files = set(pr.get("anchors", {}).get("files", []))
-    keys = {k for k, props in fn2.items() if pid in props} | {k for k, f in prog.funcs.items() if f.module.rel in files}
+            an = pr.get("anchors", {})
+            files = set(an.get("files", []))
+            text = " ".join([m.get("where", "") + " " + m.get("name", "") for m in an.get("mechanism", [])] + list(an.get("observe_at", []) or []))
+            words = set(re.findall(r"[A-Za-z_][A-Za-z0-9_]*", text))
+    # the functions the property's anchors name (by the tables or by name in the mechanism / observation
+    # texts, with their nested functions) - not every function of an anchored file: an exit added to
+    # `close()` says nothing about the JSON round trip although both live in replace.py
+    def named(f) -> bool:
+        parts = f.qual.split(".")
+        return f.module.rel in files and any(p_ in words for p_ in parts if not p_.startswith("__"))
+
+    keys = {k for k, props in fn2.items() if pid in props} | {k for k, f in prog.funcs.items() if named(f)}
     n = 0
     for key in sorted(keys):
         if not prog.has_func(key):
